@@ -74,7 +74,8 @@ class PriorityAttacher(object):
     # it...? or just log all failures here?
 
     def attach_stream(self, stream, circuits):
-        for _, _, attacher in self._attacher_heap:
+        # the heap's list is not in priority order beyond its first entry
+        for _, _, attacher in sorted(self._attacher_heap, key=lambda item: item[:2]):
             if attacher is not None:
                 answer = attacher.attach_stream(stream, circuits)
                 if answer is not None:
